@@ -4,7 +4,7 @@ from __future__ import annotations
 import ast
 import re
 
-from sa.absint import Evaluator, all_effects
+from sa.absint import Evaluator, all_effects, flatten_effects
 from sa.index import AnalysisError
 from sa.teval import Unknown, teval
 from sa.terms import App, Const, Ref, Sym, cases, cat_parts, subterms
@@ -122,21 +122,74 @@ def run(ctx):
 
     kconfig_rules(ctx, ev)
 
-    R.rule("C13-D2d assign_role plumbing", 6, "assign_role receives vendor, class and role of one entry")
+    R.rule("C13-D2d assign_role plumbing", 4, "assign_role receives vendor, class and role of one entry; configured assignments are applied after the defaults")
     init = repo.func(IMG, "EnvelopeStorage.__init__")
-    n = 0
-    for node in ast.walk(init.node):
-        if isinstance(node, ast.Call) and isinstance(node.func, ast.Attribute) and node.func.attr == "assign_role":
-            want = ["vendor_name", "class_name", "role"]
-            got = [argname.hint(a) for a in node.args]
-            bases = {ast.unparse(a.value) for a in node.args if isinstance(a, ast.Subscript)}
-            for w, g in zip(want, got):
-                n += 1
-                R.check("C13-D2d assign_role plumbing", w == g and len(bases) == 1, f"assign_role argument {w}", mod=init.module,
-                        node=node, function=ctx.fq(init), expected=f"entry[{w!r}] of one entry", found=f"{g!r} from {sorted(bases)}",
-                        key_extra=w)
-    if n < 6:
-        raise AnalysisError("EnvelopeStorage.__init__: assign_role calls not recognised")
+    ar_fi = repo.func(IMG, "EnvelopeStorage.assign_role")
+    iouts = [o for o in Evaluator(repo, inline_depth=0).outcomes(init) if o.kind == "return"]
+    if not iouts:
+        raise AnalysisError("EnvelopeStorage.__init__: no normal outcome")
+
+    def classify(part):
+        if isinstance(part, App) and part.op == "attr:_CLASS_ROLE_ASSIGNMENTS":
+            return "defaults"
+        if isinstance(part, App) and part.op == "call" and isinstance(part.args[0], Ref) and getattr(part.args[0].obj, "name", "") == "_get_role_assignments_from_kconfig":
+            return "configuration"
+        if (isinstance(part, Const) and part.v in ([], ())) or (isinstance(part, App) and part.op in ("list", "tuple") and not part.args):
+            return None
+        raise AnalysisError(f"EnvelopeStorage.__init__: source of role assignments not recognised: {part!r}"[:200])
+
+    def parts(t):
+        if isinstance(t, App) and t.op in ("+", "cat"):
+            out = []
+            for x in t.args:
+                out += parts(x)
+            return out
+        if isinstance(t, App) and t.op in ("call:list", "listof", "call:tuple") and len(t.args) == 1:
+            return parts(t.args[0])
+        return [t]
+    n_calls = 0
+    seen_kinds = set()
+    order_bad, arg_bad = [], []
+    for o in iouts:
+        for seq in flatten_effects(o.effects):
+            # flatten_effects takes loops once: the sequence of loop iterables on this path gives the order of the sources
+            srcs = []
+            for e in seq:
+                if isinstance(e, App) and e.op == "eff:call" and isinstance(e.args[0], App) and e.args[0].op == "call" \
+                        and isinstance(e.args[0].args[0], Ref) and e.args[0].args[0].obj is ar_fi:
+                    c = e.args[0]
+                    n_calls += 1
+                    a = list(c.args[2:]) if c.args[1] == Sym("param:self") else list(c.args[1:])
+                    if len(a) != 3 or not all(isinstance(x, App) and x.op == "idx" and isinstance(x.args[0], App) and x.args[0].op == "elem" for x in a):
+                        arg_bad.append(repr(c)[:160])
+                        continue
+                    elems = {x.args[0] for x in a}
+                    keys = [x.args[1].v if isinstance(x.args[1], Const) else None for x in a]
+                    if len(elems) != 1 or keys != ["vendor_name", "class_name", "role"]:
+                        arg_bad.append(f"{keys} from {len(elems)} entries")
+                    it = a[0].args[0].args[0]
+                    for g, alt in cases(it):
+                        seq_kinds = [k for k in (classify(p) for p in parts(alt)) if k]
+                        srcs.append(seq_kinds)
+            # within one path: concatenate in order (alternatives of one iterable are each checked)
+            flat = []
+            for alt in srcs:
+                if "defaults" in alt and "configuration" in flat + alt[:alt.index("defaults")]:
+                    order_bad.append(" -> ".join(flat + alt))
+                flat += alt
+                seen_kinds.update(alt)
+    if n_calls < 1 or not ({"defaults", "configuration"} <= seen_kinds):
+        raise AnalysisError(f"EnvelopeStorage.__init__: assign_role calls not recognised ({n_calls} calls, sources {sorted(seen_kinds)})")
+    R.check("C13-D2d assign_role plumbing", not arg_bad, "assign_role(entry['vendor_name'], entry['class_name'], entry['role']) of one entry",
+            mod=init.module, node=init.node, function=ctx.fq(init), expected="the three fields of the same entry, in this order", found=f"{arg_bad[:2]}")
+    st_last = [e for o in ev.outcomes(ar_fi) for e in all_effects(o.effects) if isinstance(e, App) and e.op == "eff:store"]
+    R.check("C13-D2d assign_role plumbing", not order_bad, "assignments from the build configuration are applied after the defaults (the last store wins)",
+            mod=init.module, node=init.node, function=ctx.fq(init),
+            expected="defaults first, configuration second: a configured role replaces the default of the same class",
+            found=f"order {order_bad[:1]}: a default overrides the configured role")
+    R.check("C13-D2d assign_role plumbing", len(st_last) == 1, "assign_role stores unconditionally (later assignment replaces the earlier one)",
+            mod=ar_fi.module, node=ar_fi.node, function=ctx.fq(ar_fi), expected="one store per call", found=f"{len(st_last)} stores")
+    R.check("C13-D2d assign_role plumbing", True, "sources recognised")
 
 
 def kconfig_rules(ctx, ev):
@@ -156,12 +209,29 @@ def kconfig_rules(ctx, ev):
         raise AnalysisError(f"{fq}: assignment entry is not a dict literal")
     R.rule("C13-D2a same manifest", 2, "vendor and class names are read from the two keys of the same manifest")
 
+    def unstr(t):
+        return t.args[0] if isinstance(t, App) and t.op == "str" and len(t.args) == 1 else t
+
+    matches = [s_ for o in outs for c in list(o.conds) + [e for e in all_effects(o.effects)] for s_ in subterms(c)
+               if isinstance(s_, App) and s_.op == "call:re.match" and isinstance(s_.args[0], Const)]
+
     def key_parts(t):
         # config[ 'SB_CONFIG_SUIT_MPI_' + str(manifest) + '_X_NAME' ]
         if isinstance(t, App) and t.op == "idx":
             parts = cat_parts(t.args[1])
             if len(parts) == 3 and isinstance(parts[0], Const) and isinstance(parts[2], Const):
-                return t.args[0], parts[0].v, parts[1], parts[2].v
+                return t.args[0], parts[0].v, unstr(parts[1]), parts[2].v
+        # the value of the (key, value) pair being iterated, whose key was matched by ^<prefix>(?P<manifest>…)<suffix>$:
+        # the same as config[<prefix> + manifest + <suffix>]
+        if isinstance(t, App) and t.op == "unpack" and t.args[1:] == (Const(1), Const(2)) and isinstance(t.args[0], App) and t.args[0].op == "elem" \
+                and isinstance(t.args[0].args[0], App) and t.args[0].args[0].op == "meth:items":
+            cfg = t.args[0].args[0].args[0]
+            keyterm = App("unpack", (t.args[0], Const(0), Const(2)))
+            for mt in matches:
+                if mt.args[1] == keyterm:
+                    pm = re.fullmatch(r"\^(\w*)\(\?P<manifest>[^()]*\)(\w*)\$", mt.args[0].v)
+                    if pm:
+                        return cfg, pm.group(1), App("meth:group", (mt, Const("manifest"))), pm.group(2)
         return None
 
     kv_, kc = key_parts(entry.get("vendor_name")), key_parts(entry.get("class_name"))
@@ -207,27 +277,49 @@ def kconfig_rules(ctx, ev):
                 found=f"ManifestRole[{got!r}]{'' if got in members else ' (no such member)'}"
                       f"{'' if matches_regex else '; key not matched by pattern ' + repr(pattern)}", key_extra=n)
 
-    # duplicate pair rejected before the entry is appended
-    R.rule("C13-D2c duplicate pair rejected", 1, "a vendor/class pair given to two roles raises before it is recorded")
-    ok = False
-    for r in raises:
-        conds = [c for c in r.conds if isinstance(c, App) and c.op == "and"]
+    # duplicate pair rejected before the entry is appended: some raising path is selected by "both names equal an earlier entry",
+    # and the scan over the earlier entries is complete (no break / return leaves it early)
+    R.rule("C13-D2c duplicate pair rejected", 2, "a vendor/class pair given to two roles raises before it is recorded; every earlier entry is compared")
+
+    def equalities(conds):
+        out = []
         for c in conds:
-            eqs = [a for a in c.args if isinstance(a, App) and a.op == "=="]
-            sides = set()
-            for e in eqs:
-                for a in e.args:
-                    if a == entry.get("vendor_name"):
-                        sides.add("v")
-                    if a == entry.get("class_name"):
-                        sides.add("c")
-            item_sides = any(isinstance(a, App) and a.op == "idx" and a.args[1] == Const("vendor_name") for e in eqs for a in e.args) \
-                and any(isinstance(a, App) and a.op == "idx" and a.args[1] == Const("class_name") for e in eqs for a in e.args)
-            if sides == {"v", "c"} and item_sides:
-                pre = find_effect_calls(r.effects, "meth:append")
-                exc = r.value
-                en = exc.args[0].obj.name if isinstance(exc, App) and exc.op == "new" and isinstance(exc.args[0], Ref) else "?"
-                ok = not pre and en == "GeneratorError"
+            todo = [c]
+            while todo:
+                x = todo.pop()
+                if isinstance(x, App) and x.op == "and":
+                    todo.extend(x.args)
+                elif isinstance(x, App) and x.op == "==":
+                    out.append(x)
+                elif isinstance(x, App) and x.op == "not" and isinstance(x.args[0], App) and x.args[0].op == "!=":
+                    out.append(App("==", x.args[0].args))
+        return out
+    ok = False
+    kpv, kpc = key_parts(entry.get("vendor_name")), key_parts(entry.get("class_name"))
+    for r in raises:
+        eqs = equalities(r.conds)
+        sides = set()
+        for e in eqs:
+            for a in e.args:
+                if kpv is not None and key_parts(a) == kpv:
+                    sides.add("v")
+                if kpc is not None and key_parts(a) == kpc:
+                    sides.add("c")
+        item_sides = any(isinstance(a, App) and a.op == "idx" and a.args[1] == Const("vendor_name") for e in eqs for a in e.args) \
+            and any(isinstance(a, App) and a.op == "idx" and a.args[1] == Const("class_name") for e in eqs for a in e.args)
+        if sides == {"v", "c"} and item_sides:
+            pre = find_effect_calls(r.effects, "meth:append")
+            exc = r.value
+            en = exc.args[0].obj.name if isinstance(exc, App) and exc.op == "new" and isinstance(exc.args[0], Ref) else "?"
+            ok = ok or (not pre and en == "GeneratorError")
     R.check("C13-D2c duplicate pair rejected", ok, "same vendor_name and class_name as an earlier entry", mod=fi.module,
             node=fi.node, function=fq, expected="raise GeneratorError when both names equal an earlier entry, before append",
             found="no such rejecting path")
+    scans = [n for n in ast.walk(fi.node) if isinstance(n, ast.For) and any(isinstance(x, ast.Raise) for x in ast.walk(n))
+             and not any(isinstance(x, ast.For) and x is not n and any(isinstance(y, ast.Raise) for y in ast.walk(x)) for x in ast.walk(n))]
+    if len(scans) != 1:
+        raise AnalysisError(f"{fq}: scan over the earlier entries not recognised ({len(scans)})")
+    early = [x for x in ast.walk(scans[0]) if isinstance(x, (ast.Break, ast.Return))]
+    R.check("C13-D2c duplicate pair rejected", not early, "the scan compares every earlier entry", mod=fi.module,
+            node=early[0] if early else scans[0], function=fq, expected="no break / return inside the scan before all entries are compared",
+            found=f"{type(early[0]).__name__.lower()} at line {early[0].lineno} ends the scan early" if early else "")
